@@ -382,7 +382,9 @@ def grid(tier):
 
 
 RULE = ("cross product of the annotation grammar (quick: depth<=1 over a leaf subset, thorough: "
-        "depth<=2) and the ground value list at the three sites; evaluations = judged (pair, site) "
+        "depth<=2) and the ground value list at the three sites, plus a targeted depth-2 slice "
+        "(homogeneous views over parameterised element types x 2-3 element containers in every "
+        "order of conforming / non-conforming-inner elements); evaluations = judged (pair, site) "
         "cases, i.e. the oracle decided and pytype accepted the annotation; non-trivial = judged case "
         "where an error is expected or the annotation has at least one type constructor; distinct by "
         "(annotation, value, site)")
@@ -392,6 +394,9 @@ def run(tier, seed):
   ck = common.Check(PID, tier, seed, rule=RULE)
   anns, values = grid(tier)
   pairs = [(a, v) for a in anns for v in values]
+  have = set(pairs)
+  nested = [p for p in ground.c02_nested_slice() if p not in have]
+  pairs += nested
   rng = random.Random(f"{PID}-{seed}-order")
   rng.shuffle(pairs)            # which cases share a module depends on the seed; verdicts must not
   nchild = 32 if tier == "quick" else 128     # whole rounds of the 16-worker pool
@@ -431,6 +436,7 @@ def run(tier, seed):
       json.dump({"recs": recs, "iso": list(iso.values())}, f)
   evaluate(ck, recs, iso, batches)
   ck.count("pairs_generated", len(pairs))
+  ck.count("pairs_of_targeted_nested_slice", len(nested))
   ck.extra["grid"] = {"annotations": len(anns), "values": len(values), "sites": 3}
   ck.exhaustive = False
   ck.extra["exhaustive_slice"] = ("the whole annotation x value x site grid of this tier is "
